@@ -723,4 +723,5 @@ static void dabs_gen(Ctx& ctx) {
     ctx.rc("random", ctx.by_tier(15000, 120000), [&]() { return det_random_case(pick(0, 1) ? 2 : 0); });
 }
 
+VK_FRESH_THREADS;
 VK_MAIN("C18")
